@@ -64,12 +64,17 @@ func hC16Stream() {
 		return
 	}
 	target, codec, comp := refNegotiate(cfg)
-	nReq := verifChoose("requests", 3) + 1
+	// quick: 1-3 rounds of 0-1 byte messages; thorough: 0-2 bytes
+	maxRounds, sizes := 3, 2
+	if verifTier() == 1 {
+		maxRounds, sizes = 3, 3
+	}
+	nReq := verifChoose("requests", maxRounds) + 1
 	reqMsgs := make([]wireMsg, nReq)
 	frameEnd := make([]int, nReq)
 	var stream []byte
 	for i := range reqMsgs {
-		reqMsgs[i].abstract = nondetBytes("req", verifChoose("req.size", 2))
+		reqMsgs[i].abstract = nondetBytes("req", verifChoose("req.size", sizes))
 		reqMsgs[i].compressed = cfg.clientComp && verifChoose("req.flag", 2) == 1
 		fl := byte(0)
 		if reqMsgs[i].compressed {
@@ -78,10 +83,10 @@ func hC16Stream() {
 		stream = appendFrame(stream, fl, encodeMsg(cfg.clientCodec, reqMsgs[i]))
 		frameEnd[i] = len(stream)
 	}
-	nResp := verifChoose("responses", 3) + 1
+	nResp := verifChoose("responses", maxRounds) + 1
 	respMsgs := make([]wireMsg, nResp)
 	for i := range respMsgs {
-		respMsgs[i].abstract = nondetBytes("resp", verifChoose("resp.size", 2))
+		respMsgs[i].abstract = nondetBytes("resp", verifChoose("resp.size", sizes))
 	}
 	sink := p.sink
 	body := p.body
